@@ -110,6 +110,42 @@ def gen_churn(rng, length):
     return lines
 
 
+def gen_lists(rng, length):
+    """state-aware histories on one list (the root or a nested one): appended to every length up to ~40, with inserts in front of an
+    existing element (`[k+]`), at the end and far beyond it, deletions, and reads, at every length on the way (growth of the vector
+    happens at particular lengths)"""
+    base = rng.choice([b'', b'l', b'm.l', b'a[2]'])
+    n = 0
+    lines = []
+    tag = 0
+    for _ in range(length):
+        x = rng.random()
+        tag += 1
+        v = b'v%d' % tag
+        if x < 0.50 or n == 0:
+            lines.append('pt 0 set %s' % vlib.hexbytes(base + b'[+]=' + v))
+            n += 1
+        elif x < 0.72:
+            k = rng.choice([0, n - 1, rng.randrange(n), n // 2])
+            lines.append('pt 0 set %s' % vlib.hexbytes(base + b'[%d+]=' % k + v))
+            n += 1
+        elif x < 0.76:
+            k = n + rng.randint(0, 3)
+            lines.append('pt 0 set %s' % vlib.hexbytes(base + b'[%d]=' % k + v))
+            n = max(n, k + 1)
+        elif x < 0.84:
+            k = rng.choice([0, n - 1, rng.randrange(n)])
+            lines.append('pt 0 delete %s' % vlib.hexbytes(base + b'[%d]' % k))
+            n -= 1
+        elif x < 0.94:
+            lines.append('pt 0 %s %s' % (rng.choice(['count', 'get', 'get_subtree']), vlib.hexbytes(base + rng.choice([b'[]', b'[%d]' % rng.randrange(max(n, 1)), b'[%d]' % max(n - 1, 0)]))))
+        else:
+            lines.append('pt 1 copy 0')
+            lines.append('pt 1 count %s' % vlib.hexbytes(base + b'[]'))
+    lines += ['pt 0 count %s' % vlib.hexbytes(base + b'[]'), 'pt 0 digest', 'pt 1 digest', 'pt 0 free', 'pt 1 free', 'pt 0 live']
+    return lines
+
+
 def fmt_res(res):
     st, v = res
     if st == 'fail':
@@ -270,6 +306,7 @@ def run(chk):
         scripts.append(gen_history(rng, 60 if quick else 200))
     for _ in range((60 if quick else 1500) * (5 if broken else 1)):
         scripts.append(gen_churn(rng, 30 if quick else 80))
+        scripts.append(gen_lists(rng, 70 if quick else 160))
     chk.rule = ('corpus + bounded-exhaustive histories (15-op alphabet, depth %d) + random histories over two roots: set/delete/get/type/count/'
                 'keys/get_subtree/set_subtree/copy/quote_key with descriptors from the full grammar (keys needing quotes, UTF-8, spaces, [n], [n+], '
                 '[+], trailing ., {}, []), values with =, #, newlines, and a malformed-descriptor stream' % (2 if quick else 3))
